@@ -122,7 +122,7 @@ func (f *vxFS) WalkDir(root string, fn fs.WalkDirFunc) error {
 func vxNameBytes(s string) bool {
 	for i := 0; i < len(s); i++ {
 		c := s[i]
-		if !(c >= 'a' && c <= 'z' || c == '.' || c == '_') {
+		if !(c >= 'a' && c <= 'z' || c >= 'A' && c <= 'Z' || c == '.' || c == '_') {
 			return false
 		}
 	}
